@@ -6,8 +6,8 @@ Import ListNotations.
 From Onet Require Export Base.Corr Api.Stream.
 
 (* flipped by the integrator when proposed_fixes/C15-F18.diff / C15-F19.diff land *)
-Definition code_fixed_F18 := false.
-Definition code_fixed_F19 := false.
+Definition code_fixed_F18 := true.
+Definition code_fixed_F19 := true.
 Definition code : fixes := {| f18 := code_fixed_F18; f19 := code_fixed_F19 |}.
 
 (* one session: first message, number of service channels the harness service
